@@ -368,8 +368,8 @@ def gen_history(seed, nops, alpha="short", mode="plain", kinds=None, reopen=Fals
         elif k == "create":
             ps = list(dict.fromkeys(rl((1, 3)) for _ in range(r.randint(1, 2))))
             ops.append(["create", ps])
-        elif k in ("addp", "rmp", "del", "move", "createpage"):
-            ops.append(["@" + k, rl((1, 3)), r.randint(0, 7), r.randint(0, 7)])
+        elif k.lstrip("@") in ("addp", "rmp", "del", "move", "createpage"):
+            ops.append(["@" + k.lstrip("@"), rl((1, 3)), r.randint(0, 7), r.randint(0, 7)])
         elif k == "rule":
             a = rand_web_lru(r)
             a = b"".join(stems_of(a)[: r.randint(2, 4)])
@@ -378,6 +378,8 @@ def gen_history(seed, nops, alpha="short", mode="plain", kinds=None, reopen=Fals
             ops.append(["reopen"])
         elif k == "clear":
             ops.append(["clear"])
+        else:
+            raise ValueError("unknown operation kind %r in a history plan" % (k,))
     return ops
 
 
